@@ -206,6 +206,29 @@ func genC04(r *Rng, e *Emitter, n int) {
 			return fmt.Sprintf("(ok %v %v)", wf, err == nil && bytes.Equal(b, b2))
 		}))
 	}
+	// a deep chain of collection headers, each claiming as many members as the limit allows, cut off
+	// at the bottom: nothing may be reserved per claimed member at every level
+	for i := 0; i < 4; i++ {
+		c := codecs[r.Intn(len(codecs))]
+		var bo binary.ByteOrder = wkb.XDR
+		if r.chance(1, 2) {
+			bo = wkb.NDR
+		}
+		head, err := c.marshal(geom.NewGeometryCollection(), bo)
+		if err != nil || len(head) < 9 {
+			continue
+		}
+		L := []int{2048, 4096}[r.Intn(2)]
+		D := 300 + r.Intn(1200)
+		var b []byte
+		for k := 0; k < D; k++ {
+			h := append([]byte{}, head[:9]...)
+			bo.PutUint32(h[5:], uint32(L-r.Intn(3)))
+			b = append(b, h...)
+		}
+		e.tally("mutation=deep-chain-of-full-collections")
+		c04Run(e, c, [4]int{0, L, L, L}, b)
+	}
 	// large limits, the top-level count forged up to the limit, one large member really present and the
 	// rest cut off: what is reserved must follow what the input holds, not the product of the counts
 	for i := 0; i < n/300+6; i++ {
